@@ -45,7 +45,7 @@ private def pw (a : Expr) (n : Int) : Expr := .bin .pow a (i n)
 
 /-! ### the smart constructors -/
 
-/-- **`flattened_sum` preserves the value**: the queue loop (children appended at the end, zero
+/-- **`flattened_sum` preserves the value**: the queue loop (children spliced in place, zero
 items skipped) returns an expression whose value is the sum of the values of the terms. -/
 theorem flattenedSum_value (ρ : String → K) (terms : List Expr) (v : K)
     (h : evalKL ρ false terms = some v) : evalK ρ (flattenedSum terms) = some v :=
